@@ -198,6 +198,12 @@ UNIT_CASES = [
     (('or', ('s_next', X), Y), '(s_next(x)) or (y)', (250, 'ms'), 's'),
     (('or', ('next', X), Y), '(next(x)) or (y)', (2, 's'), 's'),
     (('and', ('eventually_t', X, 1, 2), ('next', Y)), '(eventually[1s,2s](x)) and (next(y))', (1, 's'), 'ms'),
+    # a unit on ONE bound only, different from the default unit, the unit-less bound not 0: it takes the other bound's unit
+    (('eventually_t', X, 1, 3), 'eventually[1:3ms](x)', (1, 'ms'), 's'),
+    (('always_t', X, 2, 4), 'always[2ms:4](x)', (1, 'ms'), 's'),
+    (('eventually_t', X, 1, 2), 'eventually[1:2s](x)', (1, 's'), 'ms'),
+    (('and', ('until_t', X, Y, 1, 2), ('once_t', Y, 0, 1)), '((x) until[1,2s] (y)) and (once[0,1s](y))', (1, 's'), 'ms'),
+    (('or', ('eventually_t', X, 2, 3), ('historically_t', Y, 1, 2)), '(eventually[1000us,1500](x)) or (historically[500,1000us](y))', (500, 'us'), 'ms'),
 ]
 NOFUT_CASES = [
     (('once_t', X, 0, 2), 'once[0ms,2000ms](x)', None, None),
@@ -211,6 +217,9 @@ NOFUT_CASES = [
     (('since_t', X, Y, 1, 3), '(x) since[500ms,1500ms] (y)', (500, 'ms'), 's'),
     (('and', ('once_t', X, 1, 5), ('historically_t', Y, 0, 3)), '(once[0.5,2.5](x)) and (historically[0,1500ms](y))', (500, 'ms'), 's'),
     (('once_t', X, 1, 2), 'once[0.25,0.5](x)', (250, 'ms'), None),
+    (('once_t', X, 1, 2), 'once[1:2ms](x)', (1, 'ms'), 's'),
+    (('historically_t', X, 2, 3), 'historically[2ms:3](x)', (1, 'ms'), 's'),
+    (('since_t', X, Y, 1, 2), '(x) since[1,2s] (y)', (1, 's'), 'ms'),
 ]
 
 
